@@ -687,8 +687,97 @@ def describe():
 # instruction number >= 1 and an offset inside the buffer; accepted inputs re-assemble to themselves
 # ---------------------------------------------------------------------------------------------
 
+def row_sweep(ctx):
+    """C03 on every row of the real instruction table: a minimal instruction built from the row (required operands only; all optional
+    operands present, a variadic one twice) must be ACCEPTED by the real parser; the same without its last required operand, or with one
+    surplus word when the row has no variadic operand, must be REJECTED. Rows with context-dependent kinds are left to the crafted cases."""
+    from . import seeds
+    from .lift_reflect import lift
+    from .common import enum_variants, SPIRV
+    p, err = ctx["vreplay"](["table-dump", "core"])
+    if p is None or p.returncode != 0:
+        return None
+    enums_with_params, _ = lift()
+    _vals = {}
+
+    def enum_val(kind):
+        if kind not in _vals:
+            try:
+                vs = enum_variants(Source.get(SPIRV).find("enum", kind))
+                with_p = set(enums_with_params.get(kind, {}).keys())
+                _vals[kind] = next((v for n_, v in vs if n_ not in with_p), None)
+            except Exception:
+                _vals[kind] = 0   # bit-mask kinds: no bit set
+        return _vals[kind]
+    cases = []
+    for line in p.stdout.splitlines():
+        parts = line.split()
+        num, name = int(parts[0]), parts[1]
+        kinds = [x.split(":") for x in parts[2][len("kinds="):].split(",") if x]
+        if any(k in ("LiteralContextDependentNumber", "LiteralSpecConstantOpInteger", "PairLiteralIntegerIdRef") for k, q in kinds):
+            continue
+        ctr = [10]
+
+        def words(k):
+            if k in ("IdResultType", "IdResult", "IdRef", "IdScope", "IdMemorySemantics"):
+                ctr[0] += 1
+                return [ctr[0]]
+            if k in ("LiteralInteger", "LiteralFloat", "LiteralExtInstInteger"):
+                return [7]
+            if k == "LiteralString":
+                return seeds.s("abcdefg")
+            if k in ("PairIdRefIdRef", "PairIdRefLiteralInteger"):
+                ctr[0] += 2
+                return [ctr[0] - 1, ctr[0]]
+            v = enum_val(k)
+            return None if v is None else [v]
+        req, opt, ok = [], [], True
+        for k, q in kinds:
+            w = words(k)
+            if w is None:
+                ok = False
+                break
+            if q == "One":
+                req.append((k, w))
+            elif q == "ZeroOrOne":
+                opt.append(w)
+            else:
+                opt.append(w + (words(k) or []))
+        if not ok:
+            continue
+        flat = lambda ws: [x for w in ws for x in w]
+        a = flat([w for _, w in req])
+        full = a + flat(opt)
+        mk = lambda ws: seeds.to_hex_bytes(seeds.HEADER + [((len(ws) + 1) << 16) | num] + ws)
+        cases.append(("accept", name, "required operands only", mk(a)))
+        if opt:
+            cases.append(("accept", name, "all optional operands present", mk(full)))
+        nonres = [(k, w) for k, w in req if k not in ("IdResultType", "IdResult")]
+        if nonres:
+            cases.append(("reject", name, "last required operand missing", mk(a[:len(a) - len(req[-1][1])])))
+        if not any(q == "ZeroOrMore" for _, q in kinds):
+            cases.append(("reject", name, "one surplus word", mk(full + [1])))
+    pr, err = ctx["vreplay"](["parse-only"], stdin="\n".join(c[3] for c in cases) + "\n", timeout=600)
+    if pr is None or pr.returncode != 0:
+        return None
+    for (want, name, what, hx), o in zip(cases, pr.stdout.splitlines()):
+        if o.startswith("PANIC"):
+            return {"found": True, "exhaustive": False, "input": {"opcode": name, "case": what, "bytes_hex": hx}, "observed": o, "disagreement": "panic"}
+        if want == "accept" and not o.startswith("Ok 1 "):
+            return {"found": True, "exhaustive": False, "input": {"opcode": name, "case": what, "bytes_hex": hx}, "observed": o,
+                    "disagreement": "an instruction matching its grammar row (%s) is rejected" % what}
+        if want == "reject" and o.startswith("Ok"):
+            return {"found": True, "exhaustive": False, "input": {"opcode": name, "case": what, "bytes_hex": hx}, "observed": o,
+                    "disagreement": "an instruction not matching its grammar row (%s) is accepted" % what}
+    return {"found": False, "cases": len(cases)}
+
+
 def witness(failure, ctx):
     from . import seeds
+    rs = row_sweep(ctx)
+    if rs and rs.get("found"):
+        rs["how"] = "vreplay parse-only on the real parser: one accept / reject family per row of the real instruction table"
+        return rs
     base = seeds.seed_main()
     hexb = seeds.to_hex_bytes(base)
     cases = [("seed", hexb)]
@@ -736,6 +825,10 @@ def witness(failure, ctx):
     # C02/C01: a string followed by further operands whose bytes are not UTF-8 (ids 128, 255, 0xffff..): accepted, same operands
     for ids in ([128], [200, 255, 0xffff], [0xfffefdfc]):
         cases.append(("c01-string-then-%x" % ids[0], seeds.to_hex_bytes(seeds.HEADER + seeds.inst(15, 4, 4, *(seeds.s("main") + [9] + ids)))))
+    # C10: never on earlier parses: a parse that fails after declaring a 64-bit type, then a module that uses the same id undeclared
+    cases.append(("leak-a", seeds.to_hex_bytes(seeds.HEADER + seeds.inst(21, 1, 64, 0) + seeds.inst(22, 3, 128) + [0x00000000])))
+    cases.append(("c10-after-failed-parse", seeds.to_hex_bytes(seeds.HEADER + seeds.inst(43, 1, 2, 42))))
+    cases.append(("c10-after-failed-parse-f128", seeds.to_hex_bytes(seeds.HEADER + seeds.inst(43, 3, 2, 42))))
     # C10: the literal width depends on the declarations only, not on the magnitude of the ids involved
     for tid in (0x3ffffe, 0x3fffff, 0x400000, 0x7fffffff, 0xffffffff):
         for (top, width, lit) in ((21, 64, [5, 6]), (22, 64, [5, 6]), (21, 16, [5])):
@@ -746,6 +839,18 @@ def witness(failure, ctx):
              + seeds.inst(54, 2, 20, 0, 3) + seeds.inst(248, 21) + seeds.inst(251, tid, 22, 5, 0, 23)
              + seeds.inst(248, 22) + seeds.inst(253) + seeds.inst(248, 23) + seeds.inst(253) + seeds.inst(56))
         cases.append(("c10-bigsel-%x" % tid, seeds.to_hex_bytes(m)))
+    # C01: relative order inside every section / function / block: several instructions of each kind with distinct operands,
+    # once in layout order and once with the module-level sections interleaved
+    dup = (seeds.inst(17, 1) + seeds.inst(17, 2) + seeds.inst(10, *seeds.s("e1")) + seeds.inst(10, *seeds.s("e2")) + seeds.inst(14, 0, 1)
+           + seeds.inst(7, 40, *seeds.s("s1")) + seeds.inst(7, 41, *seeds.s("s2")) + seeds.inst(5, 1, *seeds.s("n1")) + seeds.inst(5, 2, *seeds.s("n2")) + seeds.inst(5, 3, *seeds.s("n3"))
+           + seeds.inst(71, 1, 0) + seeds.inst(71, 2, 0) + seeds.inst(71, 3, 1, 7) + seeds.inst(19, 1) + seeds.inst(21, 2, 32, 0) + seeds.inst(21, 3, 32, 1)
+           + seeds.inst(43, 2, 4, 10) + seeds.inst(43, 2, 5, 11) + seeds.inst(33, 6, 1)
+           + seeds.inst(54, 1, 7, 0, 6) + seeds.inst(248, 8) + seeds.inst(0) + seeds.inst(249, 9) + seeds.inst(248, 9) + seeds.inst(253) + seeds.inst(56)
+           + seeds.inst(54, 1, 10, 0, 6) + seeds.inst(248, 11) + seeds.inst(253) + seeds.inst(56))
+    cases.append(("c01-order-layout", seeds.to_hex_bytes(seeds.HEADER + dup)))
+    inter = (seeds.inst(71, 1, 0) + seeds.inst(5, 1, *seeds.s("n1")) + seeds.inst(17, 1) + seeds.inst(19, 1) + seeds.inst(71, 2, 0) + seeds.inst(5, 2, *seeds.s("n2"))
+             + seeds.inst(17, 2) + seeds.inst(21, 2, 32, 0) + seeds.inst(71, 3, 1, 7) + seeds.inst(5, 3, *seeds.s("n3")) + seeds.inst(21, 3, 32, 1))
+    cases.append(("c01-order-interleaved", seeds.to_hex_bytes(seeds.HEADER + inter)))
     # C01: header: the id bound of the input is carried, whatever ids the module uses (bound too small / zero / huge)
     for bound in (0, 1, 2, 0xffffffff):
         hb = seeds.HEADER[:3] + [bound] + seeds.HEADER[4:]
@@ -798,8 +903,12 @@ def witness(failure, ctx):
                 bad = "accepted input does not re-assemble to a fixed point"
             elif name == "seed" and o.split("words=")[1] != seedwords:
                 bad = "seed module (layout order) does not come back word-identical"
+            elif name == "c01-order-layout" and o.split("words=")[1] != ",".join("%x" % w for w in dup):
+                bad = "a module already in layout order does not come back word-identical (C01)"
             elif (name == "seed" or name.startswith("c01-") or name.startswith("c10-") or name.startswith("c03-")) and " same=1" not in o:
                 bad = "accepted input is not reproduced instruction for instruction (C01)"
+            elif " ord=1" not in o and " same=1" in o:
+                bad = "instructions of the same opcode come back in a different relative order (C01)"
             elif " hdr=1" not in o:
                 bad = "the assembled header does not carry the input's magic / version / id bound (C01)"
         elif name == "seed" or name.startswith("c10-") or name.startswith("c03-specop-variadic") or name.startswith("c03-accept-"):
@@ -814,4 +923,4 @@ def witness(failure, ctx):
         if bad:
             return {"found": True, "exhaustive": False, "input": {"case": name, "bytes_hex": h}, "observed": o, "disagreement": bad,
                     "how": "vreplay parse-batch on the real load_bytes, %d mutated modules" % len(cases)}
-    return {"found": False, "exhaustive": False, "how": "%d truncations/substitutions/word-count corruptions of the seed module: no panic, positions in range, fixed points" % len(cases)}
+    return {"found": False, "exhaustive": False, "how": "%d truncations/substitutions/word-count corruptions of the seed module and crafted modules: no panic, positions in range, fixed points; row sweep: %s accept/reject cases over the instruction table" % (len(cases), (rs or {}).get("cases"))}
